@@ -633,7 +633,7 @@ def counter_search(prop, found, limit):
   return found
 
 
-def focused_search(kinds, prop, limit=4):
+def focused_search(kinds, prop, limit=4, light=False):
   """After a broken tie: the doc-action kinds of the disagreeing bundle, aimed at each kind of column (default-formula
   data column A, trigger-formula data column Tr, formula column F, plain data column D) of a small document, alone and
   after an edit of that column / of what it reads / an added row.  Returns [(kind, what, replay)] for `prop`."""
@@ -648,7 +648,9 @@ def focused_search(kinds, prop, limit=4):
   for dname, hist in docs:
     for col in ('A', 'Tr', 'F', 'D'):
       pres = [[], [['UpdateRecord', 'T', 1, {'B': 9}]], [['AddRecord', 'T', None, {'B': 4}]]]
-      if col != 'F':
+      if light:
+        pres = [[]]
+      if col != 'F' and not light:
         pres.append([['UpdateRecord', 'T', 1, {col: vals[col]}]])
         pres.append([['AddRecord', 'T', None, {'B': 4, col: vals[col]}]])
       mains = []
@@ -701,6 +703,13 @@ def focused_search(kinds, prop, limit=4):
               if len(found) >= limit:
                 return found
   return found
+
+
+def template_search(prop, limit=6):
+  """Fixed templates, run on every check (a few seconds): counter trigger formulas read by a formula column, and -- without
+  any preceding edit -- ReplaceTableData with overlapping / partial / disjoint ids and AddColumn-with-formula / update /
+  (rename) / RemoveColumn bundles on the small documents of focused_search."""
+  return focused_search({'ReplaceTableData', 'RemoveColumn'}, prop, limit=limit, light=True)
 
 
 def own_hash():
